@@ -486,6 +486,12 @@ KNOWN = [
 # the spellings a replacement list still refers to (fixed in /repo: keyword-lit-freed, designator-name-freed)
 HAND_PROGRAMS = [
 'struct s { int x, y; struct { int z; } in; int arr[3]; };\n#define INIT { .x = 1, .in.z = 2, .arr[1] = 3 }\n#define OFF __builtin_offsetof(struct s, in.z)\n#define OFA __builtin_offsetof(struct s, arr[2])\n#define MEMB(p) ((p)->in.z + (p)->arr[1])\n#define DOT(v) ((v).x + (v).in.z)\n#define JUMP goto out\n#define LABEL out:\n#define TAG struct s\n#define PACKED [[gnu::packed]]\n#define GNUPACKED __attribute__((packed))\n#define NAME(n) __asm__(#n)\n#define STR "text"\n#define WIDE L"wide"\n#define CH \'c\'\n#define NUM 0x10ul\n#define FLT 1.5e3f\n#define GEN(v) _Generic((v), int: 1, long: 2, default: 3)\n#define ALIGNED _Alignas(16)\n#define TYPEDEF typedef int\nstruct s a = INIT, b = INIT;\nunsigned long o1 = OFF, o2 = OFF, o3 = OFA, o4 = OFA;\nstruct PACKED p1 { char c; int i; }; struct PACKED p2 { char c; long l; };\nstruct GNUPACKED p3 { char c; int i; }; struct GNUPACKED p4 { char c; long l; };\nint e1 NAME(sym1); int e2 NAME(sym2);\nconst char *s1 = STR, *s2 = STR; const int *w1 = WIDE, *w2 = WIDE;\nint c1 = CH, c2 = CH; unsigned long n1 = NUM, n2 = NUM; float f1 = FLT, f2 = FLT;\nALIGNED char al1; ALIGNED char al2;\nTYPEDEF t1; TYPEDEF t2;\nint f(TAG *p) { TAG c = INIT; if (p->x) JUMP; return c.x + OFF + MEMB(p) + DOT(c) + GEN(p->x) + sizeof(TAG); LABEL return MEMB(p) + GEN(1l); }\nint g(TAG *p) { TAG c = INIT; if (p->y) JUMP; return c.in.z + OFA + MEMB(p) + DOT(c) + GEN(p->y) + sizeof(TAG); LABEL return DOT(*p) + GEN(1.0); }\n',
+    # an identifier is a macro name or an ordinary identifier according to the definitions in force each time it is scanned
+    # (hide marks and un-read tokens must not leak into replacement lists or enclosing frames)
+    '#define ID(x) x\n#define LIMIT CAP\nenum { CAP = 3 };\nint before  = ID(LIMIT);\nint before2 = LIMIT;\n#define CAP 40\nint after   = LIMIT;\nint after2  = ID(LIMIT);\nint after3  = CAP;\n',
+    '#define ID(x) x\nenum { P = 5, Q = 7 };\n#define P Q + 1\n#define Q P * 2\nint first  = ID(Q);\nint second = P;\nint third  = ID(P);\n',
+    '#define F(x) ((x) + 100)\n#define G F\n#define H (G - -1)\nenum { F = 7 };\nint plain = F - -1;\nint via_g = G - -1;\nint via_h = H;\nint call  = F(1);\nint call2 = G(2);\n',
+    '#define F(x) ((x) + 100)\n#define TWICE(a) (a + a)\n#define PICK(a, b) (0 ? b : a)\nenum { F = 7, K = 1 };\nint twice = TWICE(F);\nint pick  = PICK(F, K);\nint both  = TWICE(F(1));\n',
     # two line splices in a row inside a definition, a splice right before the end of the definition, a splice inside a name
     '#define LONG(a, b) a + \\\n\\\nb\n#define TWO 2 \\\n\nint v = LONG(1, TWO);\nint w = LO\\\nNG(3,\\\n\\\n 4);\n',
 ]
